@@ -24,6 +24,7 @@ pub mod fmodel;
 pub mod gen06;
 pub mod gen17;
 pub mod srcheck;
+pub mod disturb;
 
 pub use outcome::*;
 pub use report::*;
